@@ -90,6 +90,29 @@ func runC03(c *Ctx) bool {
 		evalC03(c, cs)
 		c.Progress(false)
 	}
+	// wide parents around 32 / 64 / 128 / 256 children with the first, a middle, the last-but-one
+	// and the last name written again later, and spines deeper than 64 / 128 levels with
+	// alternating last / not-last ancestors
+	var shapes [][2]any
+	for _, w := range []int{31, 32, 33, 34, 63, 64, 65, 66, 127, 128, 129, 255, 256, 257} {
+		d, n := gen.WideDup(w, []int{0, w / 2, w - 2, w - 1})
+		shapes = append(shapes, [2]any{d, n})
+	}
+	for _, depth := range []int{66, 70, 130} {
+		d, n := gen.DeepMixed(depth)
+		shapes = append(shapes, [2]any{d, n})
+	}
+	for _, sh := range shapes {
+		i := idx
+		idx++
+		if !c.Mine(i) {
+			continue
+		}
+		cs := &Case{Idx: i, Kind: "wide-or-deep", Depths: sh[0].([]int), Names: sh[1].([]string), Seed: uint64(i)}
+		c.Journal(cs)
+		evalC03(c, cs)
+		c.Progress(false)
+	}
 	return true
 }
 
